@@ -85,4 +85,7 @@ def run(ctx):
     ctx.evaluations += sruns
     ctx.nontrivial += sruns
     mm.tinv(ctx, "ctr", 20000 if ctx.thorough() else 6000)
+    many = ctx.path("many.ndjson")
+    vlib.kvh(["trace", "many", ctx.seed, ctx.rundir, 70000, "ctr"], out=many)
+    vlib.validate_trace(ctx, "FactsTrace", many, "70 000 records from a pool of 12, several chunks: every count judged", "manyctr")
     ctx.exhaustive = False
